@@ -852,3 +852,125 @@ Section Sat.
       repeat split; assumption.
   Qed.
 End Sat.
+
+(** * Part 4 -- the whole stage: the instance typing is a valid typing *)
+
+Lemma clean_shapes_id fuel l :
+  (forall sh, In sh l -> sh_stmts sh <> []) -> clean_shapes fuel l = inl l.
+Proof.
+  intros H. assert (E : empty_names l = []).
+  { unfold empty_names. assert (F : filter (fun s => match sh_stmts s with [] => true | _ => false end) l = []).
+    { induction l as [|sh l IH]; [reflexivity|]. cbn.
+      destruct (sh_stmts sh) eqn:Es; [exfalso; apply (H sh (or_introl eq_refl)); exact Es|].
+      apply IH. intros sh' Hsh'. apply H. right. exact Hsh'. }
+    rewrite F. reflexivity. }
+  destruct fuel; cbn; [reflexivity|]. rewrite E. reflexivity.
+Qed.
+
+Lemma lookup_schema_of tau shapes l :
+  (exists sh, In sh shapes /\ sh_name sh = l) ->
+  exists sh', In sh' shapes /\ sh_name sh' = l /\
+              lookup (schema_of tau shapes) l = Some (map (tc_of tau) (sh_stmts sh')).
+Proof.
+  induction shapes as [|sh0 shapes IH]; intros [sh [Hin Hn]]; [destruct Hin|].
+  cbn. destruct (str_eqb l (sh_name sh0)) eqn:E.
+  - apply str_eqb_eq in E. exists sh0. split; [left; reflexivity|]. split; [auto | reflexivity].
+  - destruct Hin as [<-|Hin]; [rewrite Hn, str_eqb_refl in E; discriminate|].
+    destruct (IH (ex_intro _ sh (conj Hin Hn))) as [sh' [H1 [H2 H3]]].
+    exists sh'. split; [right; exact H1|]. split; assumption.
+Qed.
+
+Section Stage.
+  Variable fa : FreqAlg.
+  Variable okN : N -> Prop.
+  Variable okF : F fa -> Prop.
+  Hypothesis L : FreqLaws fa okN okF.
+  Variable cfg : scfg.
+  Variable G : graph.
+  Let tau := x_tau cfg.
+  Let sns := x_shapes_ns cfg.
+
+  (** the profile characterisation (P1, Proofs/ProfileChar.v) as a premise:
+      for every class of the profile the count is the number of its instances,
+      every entry holds the number of instances that count for it and is
+      positive, every key carried by a value of an instance has its entry;
+      every class that types a node has a profile entry; labels are distinct *)
+  Definition profile_exact (P : cprofile) (C : ccounts) : Prop :=
+    (forall ce, In ce P ->
+       let insts := instances_of tau G (fst ce) in
+       insts <> [] /\
+       class_cnt C ce = N.of_nat (List.length insts) /\ okN (class_cnt C ce) /\
+       (forall inv, (inv = true -> x_inverse cfg = true) ->
+          pd_wf cfg node insts (cntk tau sns G) inv (class_pd ce inv)) /\
+       (forall inv, (inv = true -> x_inverse cfg = true) -> forall p m k cd ck n,
+          In (p, m) (class_pd ce inv) -> In (k, cd) m -> In (ck, n) cd -> (0 < n)%N) /\
+       (forall inv, (inv = true -> x_inverse cfg = true) -> forall i p k,
+          In i insts -> (0 < cntk tau sns G i inv p k)%N ->
+          exists m cd n, In (p, m) (class_pd ce inv) /\ In (k, cd) m /\
+                         In ((if str_eqb p tau then CKn 1 else CKplus), n) cd)) /\
+    (forall t cn, In t G -> tp t = tau -> to t = ON cn -> exists ce, In ce P /\ fst ce = nid cn) /\
+    (forall ce1 ce2, In ce1 P -> In ce2 P ->
+       shape_name sns (fst ce1) = shape_name sns (fst ce2) -> fst ce1 = fst ce2).
+
+  Hypothesis Hkls : x_keep_less_specific cfg = true.
+  Hypothesis Hac : x_all_compliant cfg = true.
+  Hypothesis Hor : x_disable_or cfg = true.
+  Hypothesis SD : strict_dom tau sns G.
+  Variable thr : F fa.
+  Hypothesis Hthr : okF thr.
+  Hypothesis Hthr0 : forall x, okF x -> fle fa thr x = true.
+  Variable P : cprofile.
+  Variable C : ccounts.
+  Hypothesis HP : profile_exact P C.
+
+  Lemma class_shape_nonempty ce sh :
+    In ce P -> shex_class fa cfg thr C ce = inl sh -> sh_stmts sh <> [].
+  Proof.
+    intros Hce Hc. destruct HP as [H1 _]. destruct (H1 ce Hce) as (Hne & Hcnt & HokN & Hwf & Hpos & Hcomp).
+    destruct (instances_of tau G (fst ce)) as [|i insts'] eqn:Ei; [contradiction|].
+    assert (Hi : In i (instances_of tau G (fst ce))) by (rewrite Ei; left; reflexivity).
+    pose proof Hi as Hi'. apply instances_of_In in Hi'. destruct Hi' as (t & cn & Ht & Hp & Ho & _ & Hs).
+    assert (Hx : In (ON cn) (nbrs G i false tau)).
+    { apply nbrs_In. exists t. split; [exact Ht|]. split; [exact Hp|]. split; [exact Hs | symmetry; exact Ho]. }
+    rewrite <- Ei in *.
+    destruct (value_matched fa okN okF L cfg G sns Hor SD thr Hthr0 C ce Hcnt HokN Hwf Hpos Hcomp
+                            sh false i (ON cn) tau Hc ltac:(discriminate) Hi Hx) as (s' & Hs' & _).
+    intros E. rewrite E in Hs'. destruct Hs'.
+  Qed.
+
+  (** T4: conformance of every instance, given the profile characterisation *)
+  Theorem stage_conformance shapes :
+    shex fa cfg thr P C = inl shapes ->
+    valid_typing (schema_of tau shapes) G (T0 tau sns G).
+  Proof.
+    unfold shex. destruct (map_err (shex_class fa cfg thr C) P) as [l|e] eqn:E; [|discriminate].
+    assert (Hne : forall sh, In sh l -> sh_stmts sh <> []).
+    { intros sh Hsh. destruct (map_err_In _ _ _ _ E Hsh) as [ce [Hce Hc]]. eapply class_shape_nonempty; eassumption. }
+    rewrite (clean_shapes_id _ l Hne). intros Hs. assert (shapes = l) by (destruct (x_remove_empty cfg); congruence).
+    subst l. clear Hs.
+    intros i lab Hin.
+    (* the class behind the pair *)
+    pose proof Hin as Hin'. unfold T0, instance_typing in Hin'. apply in_flat_map in Hin'.
+    destruct Hin' as [t [Ht Hin']]. destruct (str_eqb (tp t) tau) eqn:Ep; [|destruct Hin'].
+    apply str_eqb_eq in Ep. destruct (to t) as [cn|] eqn:Eo; [|destruct Hin'].
+    destruct Hin' as [Epair|[]]. inversion Epair; subst i lab. clear Epair.
+    destruct HP as [H1 [H2 H3]]. destruct (H2 t cn Ht Ep Eo) as [ce [Hce Ecl]].
+    destruct (map_err_complete _ _ _ _ E Hce) as [sh [Hsh Hc]].
+    assert (Hname : sh_name sh = shape_name sns (nid cn)).
+    { rewrite shex_class_eq in Hc. destruct (class_selected _ _ _ _ _); [|discriminate].
+      destruct (tune _ _ _ _); [|discriminate]. inversion Hc; subst. cbn. rewrite Ecl. reflexivity. }
+    destruct (lookup_schema_of tau shapes (shape_name sns (nid cn)) (ex_intro _ sh (conj Hsh Hname)))
+      as [sh' [Hsh' [Hname' Hlook]]].
+    exists (map (tc_of tau) (sh_stmts sh')). split; [exact Hlook|].
+    destruct (map_err_In _ _ _ _ E Hsh') as [ce' [Hce' Hc']].
+    assert (Hname'' : sh_name sh' = shape_name sns (fst ce')).
+    { rewrite shex_class_eq in Hc'. destruct (class_selected _ _ _ _ _); [|discriminate].
+      destruct (tune _ _ _ _); [|discriminate]. inversion Hc'; subst. reflexivity. }
+    assert (Ecls : fst ce' = nid cn).
+    { rewrite <- Ecl. apply H3; try assumption. rewrite Ecl. congruence. }
+    destruct (H1 ce' Hce') as (_ & Hcnt & HokN & Hwf & Hpos & Hcomp).
+    apply (class_sat fa okN okF L cfg G sns Hkls Hac Hor SD thr Hthr Hthr0 C ce' Hcnt HokN Hwf Hpos Hcomp sh').
+    - exact Hc'.
+    - rewrite Ecls. apply instances_of_In. exists t, cn. repeat split; assumption.
+  Qed.
+End Stage.
